@@ -101,6 +101,7 @@ func image(conf, layer []byte, subject *types.Descriptor) []byte {
 
 var manI1 = image(blobC, blobL1, nil)
 var manI2 = image(blobC, blobL2, nil)
+
 // manXA: an index (no children) whose subject is I1
 var manXA = func() []byte {
 	b, _ := json.Marshal(types.Index{SchemaVersion: 2, MediaType: types.MediaTypeOCI1ManifestList, ArtifactType: "application/x.test", Manifests: []types.Descriptor{},
@@ -281,6 +282,10 @@ func tri(v int, def bool) bool {
 
 // flagSpace: every assignment of the 8 boolean flags to {not given, true, false} (thorough) or {true,false} plus
 // each flag alone not given (quick), for both store types.
+// flagSpaceWarning is given with every flag assignment: "warning headers to include with all responses" - served,
+// refused (read-only, push / delete disabled) and not found alike.
+const flagSpaceWarning = "flag space warning"
+
 func flagSpace(newCmd func() *cobra.Command, tier, base string, res *Result, add adder) {
 	var assigns [][]int
 	if tier == "thorough" {
@@ -334,7 +339,7 @@ func flagSpace(newCmd func() *cobra.Command, tier, base string, res *Result, add
 			} else {
 				copyTree(tmplPlain, dir)
 			}
-			args := []string{"--store-type", store, "--dir", dir, "--gc-frequency", "-1s"}
+			args := []string{"--store-type", store, "--dir", dir, "--gc-frequency", "-1s", "--warning", flagSpaceWarning}
 			var label []string
 			for i, v := range a {
 				switch v {
@@ -397,6 +402,14 @@ func probeFlags(r *run, store, dir string, a []int, conf string, args []string, 
 		add(conf, args, "setting-has-documented-value", "config-field-wrong:store", "store type %v dir %q", c.Storage.StoreType, c.Storage.RootDir)
 	}
 	// 2. behaviour
+	do := func(s *olareg.Server, method, target string, body []byte, hdr ...string) resp {
+		got := do(s, method, target, body, hdr...)
+		res.Probes++
+		if ws := got.h.Values("Warning"); len(ws) != 1 || ws[0] != `299 - "`+flagSpaceWarning+`"` {
+			add(conf, args, "warnings-on-all-responses", fmt.Sprintf("warning-header-missing:status-%d", got.status), "%s %s answered %d without the configured warning (Warning headers %v)", method, target, got.status, ws)
+		}
+		return got
+	}
 	before := snapshot(dir)
 	expect := func(what string, got resp, ok bool, okStatus int) {
 		res.Probes++
